@@ -1,3 +1,139 @@
+import Invoke.Lemmas.SpellCheck
 import Driver.Util
-/-! stub: replaced by the owner of this driver -/
-def main : IO Unit := Drv.mainLoop (fun _ => "bad-op")
+/-! Line-protocol driver for C01 (`drv_spell`).  One case per line, everything textual is encoded as decimal
+    character codes separated by '.', so any token/value can be transported:
+
+      P <ign 0|1> <init ctx | -> <ctx+ctx+… | _> <argv: t<enc>,t<enc>… | _> <chain | _>
+
+      ctx   = <name enc | _>~<alias,alias… | _>~<spec;spec… | _>
+      spec  = <name,name…>/<str|int|bool|list>/<n | s<enc> | i<int> | b0 | b1 | l>/<pos 0|1>/<opt 0|1>/<inc 0|1>/<attr enc | _>
+      chain = call+call+…        call = <tname enc>[,item]*
+      item  = S:<flag>:<value> | E:<flag>:<value> | G:<flagchar enc>:<value> | T:<flag> | I:<noflag> |
+              B:<chars> | P:<value> | O:<flag>
+
+    Output: `<parse result> # cov=<0|1> thm=<0|1>`; `cov` = the case satisfies the hypotheses of the proved theorem
+    (`chainOKb`, no `--` token, argv = rendered chain); `thm` = the theorem's conclusion was observed on this
+    case (always 1 when cov=1 — a sanity check of the statement, not a proof step). -/
+open Inv Drv
+
+def parseKind : String → Kind | "int" => .int | "bool" => .bool | "list" => .list | _ => .str
+
+def parseDefault (s : String) : PVal :=
+  if s == "n" then .none
+  else if s == "l" then .l []
+  else if s == "b1" then .b true
+  else if s == "b0" then .b false
+  else if s.startsWith "s" then .s (decChars (s.drop 1).toString)
+  else if s.startsWith "i" then (match (s.drop 1).toString.toInt? with | some n => .i n | none => .none)
+  else .none
+
+def optEnc (s : String) : Option Tok := if s == "_" then none else some (decChars s)
+def listEnc (s : String) (sep : String) : List String := if s == "_" then [] else s.splitOn sep
+
+def parseSpec (s : String) : ArgSpec :=
+  match s.splitOn "/" with
+  | [names, kind, dflt, pos, opt, inc, attr] =>
+    { names := (names.splitOn ",").map decChars, kind := parseKind kind, default := parseDefault dflt,
+      positional := pos == "1", optional := opt == "1", incrementable := inc == "1", attrName := optEnc attr }
+  | _ => { names := ["BAD".toList] }
+
+def parseCtx (s : String) : Except Err Ctx :=
+  match s.splitOn "~" with
+  | [name, aliases, specs] =>
+    Ctx.ofSpecs (optEnc name) ((listEnc aliases ",").map decChars) ((listEnc specs ";").map parseSpec)
+  | _ => .error (.other "Bad" "ctx")
+
+def showVal : PVal → String
+  | .none => "None"
+  | .s v => "s" ++ encChars v
+  | .i v => s!"i{v}"
+  | .b v => if v then "b1" else "b0"
+  | .l v => "l[" ++ ",".intercalate (v.map encChars) ++ "]"
+
+def showCtx (c : Ctx) : String :=
+  let kv := c.args.map fun a => (encChars (a.spec.attrName.getD (a.spec.names.headD [])), showVal a.value)
+  let kv := kv.toArray.qsort (fun a b => a.1 < b.1) |>.toList
+  encChars (c.name.getD []) ++ "{" ++ ";".intercalate (kv.map fun (k, v) => k ++ "=" ++ v) ++ "}"
+
+def showResult : Except Err PResult → String
+  | .ok r => "OK " ++ " ".intercalate (r.contexts.map showCtx) ++ " U[" ++ ",".intercalate (r.unparsed.map encChars) ++
+      "] R[" ++ encChars r.remainder ++ "]"
+  | .error (.parse k _) => s!"ERR parse:{k}"
+  | .error (.other c _) => s!"ERR other:{c}"
+  | .error .fuel => "ERR fuel"
+
+def parseArgvField (s : String) : List Tok :=
+  (listEnc s ",").map fun t => decChars (t.drop 1).toString
+
+/-- resolve one textual item against the evolving context (indices are looked up, not trusted) -/
+def resolveItem (c : Ctx) (s : String) : Option Item :=
+  match s.splitOn ":" with
+  | ["S", fl, v] => (assoc? (decChars fl) c.flags).map fun i => .spaced (decChars fl) (decChars v) i
+  | ["E", fl, v] => (assoc? (decChars fl) c.flags).map fun i => .eq (decChars fl) (decChars v) i
+  | ["G", x, v] =>
+    match decChars x, decChars v with
+    | [xc], y :: w => (assoc? ['-', xc] c.flags).map fun i => .glued xc y w i
+    | _, _ => none
+  | ["T", fl] => (assoc? (decChars fl) c.flags).map fun i => .toggle (decChars fl) i
+  | ["O", fl] => (assoc? (decChars fl) c.flags).map fun i => .optBare (decChars fl) i
+  | ["I", nofl] =>
+    (assoc? (decChars nofl) c.inverse).bind fun fl => (assoc? fl c.flags).map fun i => .inverse (decChars nofl) i
+  | ["P", v] => c.firstMissing.map fun j => .pos (decChars v) j
+  | ["B", cs] =>
+    match decChars cs with
+    | x :: rest =>
+      (assoc? ['-', x] c.flags).bind fun i =>
+        let step (acc : Option (Ctx × List (Char × Nat))) (ch : Char) : Option (Ctx × List (Char × Nat)) :=
+          acc.bind fun (cc, ps) => (assoc? ['-', ch] cc.flags).map fun k => (cc.updArg k Arg.seen, ps ++ [(ch, k)])
+        (rest.foldl step (some (c.updArg i Arg.seen, []))).map fun (_, ps) => .block x i ps
+    | [] => none
+  | _ => none
+
+def resolveItems : Ctx → List String → Option (List Item)
+  | _, [] => some []
+  | c, s :: r =>
+    match resolveItem c s with
+    | none => none
+    | some it => (resolveItems (it.apply c) r).map (it :: ·)
+
+def resolveCall (reg : List Ctx) (s : String) : Option Call :=
+  match s.splitOn "," with
+  | [] => none
+  | tn :: items =>
+    let t := decChars tn
+    match reg.find? (fun c => c.name = some t || c.aliases.contains t) with
+    | none => none
+    | some c => (resolveItems c items).map fun its => { tname := t, ctx := c, items := its }
+
+def resolveChain (reg : List Ctx) (s : String) : Option (List Call) :=
+  if s == "_" then none else (s.splitOn "+").mapM (resolveCall reg)
+
+def allOk {α} : List (Except Err α) → Except Err (List α)
+  | [] => .ok []
+  | x :: r => match x, allOk r with
+    | .ok a, .ok as => .ok (a :: as)
+    | .error e, _ => .error e
+    | _, .error e => .error e
+
+def step (line : String) : String :=
+  match line.splitOn " " with
+  | ["P", ign, init, ctxs, argv, chain] =>
+    let icE : Except Err (Option Ctx) := if init == "-" then .ok none else (parseCtx init).map some
+    match icE, allOk ((listEnc ctxs "+").map parseCtx) with
+    | .ok ic, .ok reg =>
+      let toks := parseArgvField argv
+      let res := parseArgv ic reg (ign == "1") toks
+      let (cov, thm) :=
+        match resolveChain reg chain with
+        | none => (false, true)
+        | some calls =>
+          let cov := chainOKb ic reg ic calls && noSentinelB toks && decide (calls.flatMap Call.toks = toks)
+          let expect : Except Err PResult :=
+            .ok { contexts := ic.toList ++ calls.map Call.result, unparsed := [], remainder := [] }
+          (cov, !cov || showResult res == showResult expect)
+      showResult res ++ " # cov=" ++ (if cov then "1" else "0") ++ " thm=" ++ (if thm then "1" else "0")
+    | .error _, _ => "BADSPEC"
+    | _, .error _ => "BADSPEC"
+  | _ => "bad-op"
+
+def main : IO Unit := mainLoop step
